@@ -628,3 +628,292 @@ Definition dump_is_empty (d : chan_dump) : bool :=
 (* stores are compared channel by channel; a channel without any key is the same as an absent one *)
 Definition dumps_eqb (a b : list chan_dump) : bool :=
   list_eqb dump_eqb (filter (fun d => negb (dump_is_empty d)) a) (filter (fun d => negb (dump_is_empty d)) b).
+
+(* ====================================================================================== *)
+(* The hash-slot metadata snapshot stream (pkg/db/meta)                                    *)
+
+Definition kv := (bytes * bytes)%type.
+Definition mdb := list kv.                 (* the metadata domain: key order *)
+
+Definition kv_eqb (a b : kv) : bool := bytes_eqb (fst a) (fst b) && bytes_eqb (snd a) (snd b).
+
+Record raw_meta := RM { rm_slots : list N; rm_count : N; rm_entries : list kv }.
+
+Definition enc_entry (e : kv) : bytes :=
+  put_uvarint (N.of_nat (length (fst e))) ++ put_uvarint (N.of_nat (length (snd e))) ++ fst e ++ snd e.
+Definition enc_meta_payload (s : raw_meta) : bytes :=
+  metaMagic ++ put_u16 metaVersion ++ put_u16 (N.of_nat (length (rm_slots s))) ++ concat (map put_u16 (rm_slots s))
+  ++ put_u64 (rm_count s) ++ concat (map enc_entry (rm_entries s)).
+
+Fixpoint dec_u16_list (n : nat) (bs : bytes) : option (list N * bytes) :=
+  match n with
+  | O => Some ([], bs)
+  | S n' => match get_be 2 bs with
+            | None => None
+            | Some (x, r) => match dec_u16_list n' r with
+                             | None => None
+                             | Some (l, r') => Some (x :: l, r')
+                             end
+            end
+  end.
+
+(* readSlotStreamSize / readSlotStreamBytes of one entry *)
+Definition dec_entry (bs : bytes) : option (kv * bytes) :=
+  match get_uvarint bs with
+  | None => None
+  | Some (kl, r1) =>
+    if maxSlotSnapshotStreamEntryBytes <? kl then None else
+    match get_uvarint r1 with
+    | None => None
+    | Some (vl, r2) =>
+      if maxSlotSnapshotStreamEntryBytes <? vl then None
+      else if (N.of_nat (length r2) <? kl) then None
+      else match take (N.to_nat kl) r2 with
+      | None => None
+      | Some (k, r3) =>
+        if N.of_nat (length r3) <? vl then None
+        else match take (N.to_nat vl) r3 with
+             | None => None
+             | Some (v, r4) => Some ((k, v), r4)
+             end
+      end
+    end
+  end.
+Fixpoint dec_entry_list (n : nat) (bs : bytes) : option (list kv * bytes) :=
+  match n with
+  | O => Some ([], bs)
+  | S n' => match dec_entry bs with
+            | None => None
+            | Some (e, r) => match dec_entry_list n' r with
+                             | None => None
+                             | Some (l, r') => Some (e :: l, r')
+                             end
+            end
+  end.
+(* framing of everything before the trailer *)
+Definition dec_meta_payload (bs : bytes) : option (raw_meta * bytes) :=
+  match take 4 bs with
+  | None => None
+  | Some (mg, r0) =>
+    if negb (bytes_eqb mg metaMagic) then None else
+    match get_be 2 r0 with
+    | None => None
+    | Some (ver, r1) =>
+      if negb (ver =? metaVersion) then None else
+      match get_be 2 r1 with
+      | None => None
+      | Some (ns, r2) =>
+        if ns =? 0 then None else
+        match dec_u16_list (N.to_nat ns) r2 with
+        | None => None
+        | Some (slots, r3) =>
+          match get_be 8 r3 with
+          | None => None
+          | Some (cnt, r4) =>
+            if 9223372036854775807 <? cnt then None
+            else match dec_entry_list (bounded cnt r4) r4 with
+                 | None => None
+                 | Some (es, r5) => Some (RM slots cnt es, r5)
+                 end
+          end
+        end
+      end
+    end
+  end.
+
+(* ---- keys and spans ---------------------------------------------------------------------- *)
+Definition slot_prefix (hs : N) : bytes := [metaDomain; metaPartition] ++ put_u16 hs.
+Definition space_prefix (hs sp : N) : bytes := slot_prefix hs ++ [sp].
+Definition row_prefix (hs table : N) : bytes := space_prefix hs metaSpaceRow ++ put_u32 table.           (* encodeRowPrefix *)
+Definition index_prefix (hs table idx : N) : bytes := space_prefix hs metaSpaceIndex ++ put_u32 table ++ put_u16 idx.
+
+(* hashSlotAllDataSpans, as prefixes *)
+Definition all_spans (hs : N) : list bytes :=
+  [space_prefix hs metaSpaceRow; space_prefix hs metaSpaceIndex; space_prefix hs metaSpaceSystem].
+(* hashSlotBackupDataSpans *)
+Definition backup_spans (hs : N) : list bytes :=
+  flat_map (fun t : N * list N * bool * bool => match t with (id, idxs, _, excluded) =>
+                       if excluded then [] else row_prefix hs id :: map (index_prefix hs id) idxs end) metaTables
+  ++ [space_prefix hs metaSpaceSystem].
+(* hashSlotSnapshotReplaceSpans *)
+Definition replace_spans (preserve : bool) (hs : N) : list bytes :=
+  if preserve
+  then flat_map (fun t : N * list N * bool * bool => match t with (id, _, keep, _) => if keep then [] else [row_prefix hs id] end) metaTables
+       ++ [space_prefix hs metaSpaceIndex; space_prefix hs metaSpaceSystem]
+  else all_spans hs.
+
+Definition in_spans (spans : list bytes) (key : bytes) : bool := existsb (fun p => prefixb p key) spans.
+(* snapshotEntryInHashSlots *)
+Definition in_slots (slots : list N) (key : bytes) : bool := existsb (fun hs => in_spans (all_spans hs) key) slots.
+(* isHashSlotMigrationSnapshotKey: rows of the PreserveOnImport table *)
+Definition is_migration_key (slots : list N) (key : bytes) : bool :=
+  existsb (fun hs => existsb (fun t : N * list N * bool * bool => match t with (id, _, keep, _) => keep && prefixb (row_prefix hs id) key end) metaTables) slots.
+
+(* orderedHashSlots: duplicates dropped, ascending *)
+Fixpoint insert_slot (x : N) (l : list N) : list N :=
+  match l with
+  | [] => [x]
+  | y :: r => if x =? y then l else if x <? y then x :: l else y :: insert_slot x r
+  end.
+Definition normalize_slots (l : list N) : list N := fold_left (fun a x => insert_slot x a) l [].
+
+(* ---- export -------------------------------------------------------------------------------- *)
+(* visitSnapshotEntries: per hash slot, per span, the entries in key order *)
+Definition export_entries (db : mdb) (slots : list N) (backup_only : bool) : list kv :=
+  flat_map (fun hs => flat_map (fun p => filter (fun e => prefixb p (fst e)) db)
+                               (if backup_only then backup_spans hs else all_spans hs)) slots.
+
+(* ---- the store ------------------------------------------------------------------------------ *)
+Fixpoint mdb_get (db : mdb) (k : bytes) : option bytes :=
+  match db with [] => None | e :: r => if bytes_eqb (fst e) k then Some (snd e) else mdb_get r k end.
+Fixpoint mdb_set (k v : bytes) (db : mdb) : mdb :=
+  match db with
+  | [] => [(k, v)]
+  | e :: r => if bytes_eqb (fst e) k then (k, v) :: r
+              else if bytes_ltb k (fst e) then (k, v) :: db
+              else e :: mdb_set k v r
+  end.
+Definition mdb_delete_spans (spans : list bytes) (db : mdb) : mdb := filter (fun e => negb (in_spans spans (fst e))) db.
+
+(* invalidateSnapshotAuthenticationToken: user / device rows lose their first length-prefixed string *)
+Definition invalidate_token (slots : list N) (key value : bytes) : res bytes :=
+  if existsb (fun hs => prefixb (row_prefix hs metaTableUser) key || prefixb (row_prefix hs metaTableDevice) key) slots
+  then match get_be 2 value with
+       | None => Err ECorruptValue
+       | Some (n, rest) => if N.of_nat (length rest) <? n then Err ECorruptValue
+                           else Ok ([0; 0] ++ skipn (N.to_nat n) rest)
+       end
+  else Ok value.
+
+Section MetaWithCk.
+  Variable ck : bytes -> N.
+
+  (* writeHashSlotSnapshotStream read to the end *)
+  Definition export_meta (db : mdb) (slots : list N) (backup_only : bool) : res bytes :=
+    match slots with
+    | [] => Err EInvalid
+    | _ => let ns := normalize_slots slots in
+           let es := export_entries db ns backup_only in
+           Ok (seal ck (enc_meta_payload (RM ns (N.of_nat (length es)) es)))
+    end.
+
+  (* verifySeekableSnapshotChecksum *)
+  Definition verify_meta_checksum (stream : bytes) : res bytes :=
+    if Nat.ltb (length stream) 20 then Err ECorruptValue
+    else let p := firstn (length stream - 4) stream in
+         let t := skipn (length stream - 4) stream in
+         if ck p =? be_get t then Ok p else Err EChecksum.
+
+  (* the entry loop of visitSlotSnapshotStream with the two visitors.
+     validate pass: every key must lie in the requested hash slots.
+     install pass: state = (store, current batch reversed, its entry and byte counts) *)
+  Fixpoint validate_entries (n : nat) (c : ctx) (slots : list N) (bs : bytes) : res (ctx * bytes) :=
+    match n with
+    | O => Ok (c, bs)
+    | S n' =>
+      match ctx_check c with
+      | None => Err EOther
+      | Some c1 =>
+        match dec_entry bs with
+        | None => Err ECorruptValue
+        | Some (e, r) => if in_slots slots (fst e) then validate_entries n' c1 slots r else Err EInvalid
+        end
+      end
+    end.
+
+  Definition flush (db : mdb) (batch : list kv) : mdb := fold_left (fun d e => mdb_set (fst e) (snd e) d) (rev batch) db.
+
+  Fixpoint install_entries (n : nat) (c : ctx) (slots : list N) (preserve invalidate : bool) (bs : bytes)
+           (db : mdb) (batch : list kv) (nent nbytes : N) : mdb * res (ctx * bytes) :=
+    match n with
+    | O => (flush db batch, Ok (c, bs))            (* the final flush *)
+    | S n' =>
+      match ctx_check c with
+      | None => (db, Err EOther)
+      | Some c1 =>
+        match dec_entry bs with
+        | None => (db, Err ECorruptValue)
+        | Some ((k, v), r) =>
+          match (if invalidate then invalidate_token slots k v else Ok v) with
+          | Err e => (db, Err e)
+          | Ok v' =>
+            if negb (in_slots slots k) then (db, Err EInvalid)
+            else
+              (* a local row of the preserved table wins over the snapshot's *)
+              let skip := preserve && is_migration_key slots k
+                          && match mdb_get db k with Some _ => true | None => false end in
+              let batch' := if skip then batch else (k, v') :: batch in
+              let nent' := nent + 1 in
+              let nbytes' := nbytes + N.of_nat (length k) + N.of_nat (length v) in
+              if (slotSnapshotImportBatchEntries <=? nent') || (slotSnapshotImportBatchBytes <=? nbytes')
+              then install_entries n' c1 slots preserve invalidate r (flush db batch') [] 0 0
+              else install_entries n' c1 slots preserve invalidate r db batch' nent' nbytes'
+          end
+        end
+      end
+    end.
+
+  (* the header of visitSlotSnapshotStream: slots, entry count, the rest *)
+  Definition parse_meta_header (payload : bytes) : res (list N * N * bytes) :=
+    match take 4 payload with
+    | None => Err ECorruptValue
+    | Some (mg, r0) =>
+      if negb (bytes_eqb mg metaMagic) then Err ECorruptValue else
+      match get_be 2 r0 with
+      | None => Err ECorruptValue
+      | Some (ver, r1) =>
+        if negb (ver =? metaVersion) then Err ECorruptValue else
+        match get_be 2 r1 with
+        | None => Err ECorruptValue
+        | Some (ns, r2) =>
+          if ns =? 0 then Err ECorruptValue else
+          match dec_u16_list (N.to_nat ns) r2 with
+          | None => Err ECorruptValue
+          | Some (slots, r3) =>
+            match get_be 8 r3 with
+            | None => Err ECorruptValue
+            | Some (cnt, r4) => if 9223372036854775807 <? cnt then Err ECorruptValue else Ok (slots, cnt, r4)
+            end
+          end
+        end
+      end
+    end.
+
+  (* importHashSlotSnapshotReader(hashSlots, reader, preserveMigrationMeta, invalidateTokens) *)
+  Definition import_meta (c : ctx) (req : list N) (preserve invalidate : bool) (stream : bytes) (db : mdb)
+    : mdb * res N :=
+    match ctx_check c with          (* checkSnapshotDB *)
+    | None => (db, Err EOther)
+    | Some c0 =>
+      match req with
+      | [] => (db, Err EInvalid)
+      | _ =>
+        let slots := normalize_slots req in
+        match verify_meta_checksum stream with
+        | Err e => (db, Err e)
+        | Ok payload =>
+          match parse_meta_header payload with
+          | Err e => (db, Err e)
+          | Ok (sslots, cnt, body) =>
+            match validate_entries (bounded cnt body) c0 slots body with
+            | Err e => (db, Err e)
+            | Ok (c1, rest) =>
+              match rest with
+              | _ :: _ => (db, Err ECorruptValue)
+              | [] =>
+                if negb (list_eqb N.eqb sslots slots) then (db, Err EInvalid)
+                else
+                  let db1 := mdb_delete_spans (flat_map (replace_spans preserve) slots) db in
+                  match install_entries (bounded cnt body) c1 slots preserve invalidate body db1 [] 0 0 with
+                  | (db2, Err e) => (db2, Err e)
+                  | (db2, Ok _) => (db2, Ok cnt)
+                  end
+              end
+            end
+          end
+        end
+      end
+    end.
+End MetaWithCk.
+
+Definition mdb_eqb (a b : mdb) : bool := list_eqb kv_eqb a b.
